@@ -261,6 +261,34 @@ func runC11(r *Run) {
 			r.Discharge()
 		}
 	}
+	// ---- (i-b) base case: the state NewChip starts from is plonky2's (zero state, both buffers empty) ----
+	for _, op := range challengerOps() {
+		op := op
+		for _, follow := range []bool{false, true} {
+			follow := follow
+			name := "fresh challenger: " + op.name
+			if follow {
+				name += ", then observe one element and draw 9 challenges"
+			}
+			runFieldCase(r, "challenger-step", fieldCase{name: name, bound: "the challenger as NewChip returns it; operands symbolic, permutation and hash chunking uninterpreted", build: func(fc *fctx) ([]frontend.Variable, []*ref.N) {
+				ch := challenger.NewChip(fc.api)
+				rc := ref.NewChallenger(fc.rb, fc.rb.GLPermUF(), fc.rb.ChunkUF)
+				outs, refs := op.run(fc, ch, rc)
+				if follow {
+					pe, rpe := fc.glIn("probe")
+					ch.ObserveElement(pe)
+					rc.ObserveElement(rpe)
+				}
+				for i := 0; i < 9; i++ {
+					outs = append(outs, ch.GetChallenge().Limb)
+					refs = append(refs, rc.GetChallenge())
+				}
+				return outs, refs
+			}}, hooks)
+			nCases++
+		}
+	}
+	r.Discharge()
 	for _, m := range lenMismatch {
 		r.Note("challenger state shape differs from the reference (probed twice: by drawing 9 challenges, and by observing one more element and then drawing 9 challenges): %s", m)
 	}
